@@ -309,7 +309,11 @@ class ElectronicControlUnit:
             next_wakeup = self.j1939_dll.async_job_thread(now)
 
             # check timer events
-            for event in self._timer_events:
+            # iterate over a snapshot: callbacks may add or remove timer events
+            for event in list(self._timer_events):
+                if not any(e is event for e in self._timer_events):
+                    # removed by a callback earlier in this pass
+                    continue
                 if event['deadline'] > now:
                     if next_wakeup > event['deadline']:
                         next_wakeup = event['deadline']
@@ -325,8 +329,8 @@ class ElectronicControlUnit:
                         if next_wakeup > event['deadline']:
                             next_wakeup = event['deadline']
                     else:
-                        # remove from list
-                        self._timer_events.remove( event )
+                        # remove from list (the callback may have removed it already)
+                        self._timer_events[:] = [e for e in self._timer_events if e is not event]
 
             time_to_sleep = next_wakeup - time.time()
             if time_to_sleep > 0:
